@@ -17,6 +17,8 @@ ASSUMPTIONS = [
     "well-formedness rules of DESIGN.md 4.3; non-injective relabelling is not generated",
     "besides the empty graph the search starts from fixed non-initial roots (role-carrying bonds; four-atom skeleton; skeleton with "
     "atom+bond descriptors; skeleton with stereo changes), each explored to its own depth bound",
+    "a second identifier universe whose Python hashes collide (-1, -2, 2^61-1, 0; relabel target and never-added ids collide with "
+    "them) is searched two levels less deep and walked by every third deep history",
     "deep histories: a fixed family of long (600 / 3000 step) alphabet cycles with coprime strides on one live object",
 ]
 BUDGET = {"quick": 900, "thorough": 3600}
@@ -46,6 +48,14 @@ def drive(ctx):
                 allstats.append(bfs.explore(ctx, kind, MODE, rq if t == "quick" else rt, False, tier,
                                             label=f"{kind}/A/root:{name}/{t}-plan", root=hist))
         if t == "quick":
+            # the same searches over identifiers whose Python hashes coincide (present atoms with each other, with the relabelling
+            # target and with the never-added identifiers), two levels less deep
+            for kind, (aq, at_, bq, bt) in PLAN.items():
+                allstats.append(bfs.explore(ctx, kind, MODE, max(2, aq - 2), False, tier, label=f"{kind}/A/colliding-ids", idset="colliding"))
+            for kind, (rq, rt) in ROOT_DEPTH.items():
+                for name, hist in bfs.roots(kind, "colliding"):
+                    allstats.append(bfs.explore(ctx, kind, MODE, max(1, rq - 1), False, tier,
+                                                label=f"{kind}/A/root:{name}/colliding-ids", root=hist, idset="colliding"))
             deep = [it for kind in PLAN for it in bfs.deep_items(kind, MODE, tier)]
             ctx.pmap(bfs.deep_walk, deep)
             allstats.append({"deep_histories": len(deep), "length_bound": deep[0]["len"]})
